@@ -5,6 +5,7 @@ mod ops1;
 mod ops2;
 mod faults;
 mod ops3;
+mod ops4;
 mod gen2;
 mod gen3;
 mod rng;
@@ -39,6 +40,10 @@ pub fn run_op(lhs: &str) -> String {
             "enc2" => ops2::op_enc2(args),
             "valid" => ops2::op_valid(args),
             "hist" => ops3::op_hist(args),
+            "serde" => ops3::op_serde(args),
+            "fragdec" => ops4::op_fragdec(args),
+            "fragob" => ops4::op_fragob(args),
+            "fragenc" => ops4::op_fragenc(args),
             _ => format!("unknown-op {op}"),
         }
     })
